@@ -16,6 +16,7 @@ import (
 	"sort"
 	"strings"
 
+	"ariga.io/atlas/schemahcl"
 	"ariga.io/atlas/sql/migrate"
 	"ariga.io/atlas/sql/mysql"
 	"ariga.io/atlas/sql/postgres"
@@ -57,6 +58,7 @@ type dcol struct {
 	Name, Kind string
 	Null       bool
 	Def        string
+	Comment    string
 }
 type didx struct {
 	Name   string
@@ -166,7 +168,29 @@ func edit(t *simkit.Tape, seq *int, a dsch) dsch {
 	for i, n := 0, t.Range("edits", 1, 4); i < n; i++ {
 		ti := t.Draw("edit-table", len(b.Tables))
 		tb := &b.Tables[ti]
-		switch t.Draw("edit", 7) {
+		switch t.Draw("edit", 8) {
+		case 7:
+			// An existing column changes in one or more respects at once (the planners split such a
+			// change over several statements: a comment is a statement of its own in PostgreSQL).
+			if ci := 1 + t.Draw("modify-col", len(tb.Cols)); ci < len(tb.Cols) {
+				c := &tb.Cols[ci]
+				*seq++
+				what := 1 + t.Draw("modify-what", 7)
+				if what&1 != 0 {
+					c.Comment = fmt.Sprintf("note %d", *seq)
+				}
+				if what&2 != 0 {
+					c.Null = !c.Null
+				}
+				if what&4 != 0 {
+					switch c.Kind {
+					case "int":
+						c.Def = fmt.Sprint(10 + *seq)
+					case "text":
+						c.Def = fmt.Sprintf("'e%d'", *seq)
+					}
+				}
+			}
 		case 0:
 			b.Tables = append(b.Tables, genTable(t, seq, b))
 		case 1:
@@ -236,6 +260,9 @@ func build(d dialect, s dsch, perm func(n int) []int) *schema.Schema {
 			col := schema.NewColumn(c.Name).SetType(ty).SetNull(c.Null)
 			if c.Def != "" {
 				col.SetDefault(&schema.Literal{V: c.Def})
+			}
+			if c.Comment != "" {
+				col.SetComment(c.Comment)
 			}
 			at.AddColumns(col)
 		}
@@ -399,6 +426,47 @@ func opClassOp(a dsch) *op {
 			return err
 		}
 		o.out = append(doc, []byte("--plan--\n"+planText(plan))...)
+		return nil
+	}}
+	return o
+}
+
+// A block type that declares only its name: every attribute and child block of it is kept as
+// "remaining" content (schemahcl.DefaultExtension), the way driver-specific attributes are.
+type remBlock struct {
+	Name string `spec:",name"`
+	schemahcl.DefaultExtension
+}
+
+type remDoc struct {
+	Blocks []*remBlock `spec:"widget"`
+}
+
+// remainOp evaluates a document whose blocks carry attributes and child blocks their Go type does
+// not declare and marshals what was read: the document names the same things in the same order.
+func remainOp(a dsch) *op {
+	o := &op{name: "hcl-remaining-attributes"}
+	o.steps = []func() error{func() error {
+		var b strings.Builder
+		for _, tb := range a.Tables {
+			fmt.Fprintf(&b, "widget %q {\n", tb.Name)
+			for _, c := range tb.Cols {
+				fmt.Fprintf(&b, "  %s = %q\n", c.Name, c.Kind)
+			}
+			for _, ix := range tb.Idx {
+				fmt.Fprintf(&b, "  part_%s %q {\n    unique = %v\n  }\n", ix.Cols[0], ix.Name, ix.Unique)
+			}
+			b.WriteString("}\n")
+		}
+		var doc remDoc
+		if err := schemahcl.New().EvalBytes([]byte(b.String()), &doc, nil); err != nil {
+			return fmt.Errorf("eval: %w\n%s", err, b.String())
+		}
+		out, err := schemahcl.Marshal.MarshalSpec(&doc)
+		if err != nil {
+			return err
+		}
+		o.out = out
 		return nil
 	}}
 	return o
@@ -767,7 +835,7 @@ func (sc scenario) ops(perm func(int) []int) []*op {
 	out = append(out, scopeOp(dialects[1], sc.a), scopeOp(dialects[2], sc.a))
 	out = append(out, realmOp(dialects[1], sc.realm), realmOp(dialects[2], sc.realm))
 	out = append(out, caseTwinOp(dialects[1], sc.a), caseTwinOp(dialects[2], sc.a))
-	out = append(out, opClassOp(sc.a))
+	out = append(out, opClassOp(sc.a), remainOp(sc.a))
 	return append(out, sumOp(sc.files))
 }
 
